@@ -110,7 +110,8 @@ def check(an: Analysis) -> None:
             ob.fail(init, None, "self._timeout does not hold the configured timeout")
         wrap = prog.fn("helpers.timeouted.timeout._wrap")
         ctor = [c2 for c2 in wrap.own_nodes() if isinstance(c2, ast.Call) and an.callee(wrap, c2) == prog.cls("helpers.timeouted._AsyncTimeout").qualname]
-        if not ctor or not any(k.arg == "timeout" and "param:timeout" in Deps(prog, wrap).of(k.value) for k in ctor[0].keywords):
+        passed_ = ([*ctor[0].args[1:]] + [k.value for k in ctor[0].keywords]) if ctor else []  # positional or keyword
+        if not ctor or not any("param:timeout" in Deps(prog, wrap).of(v_) for v_ in passed_):
             ob.fail(wrap, None, "timeout() does not pass the timeout on to the wrapper")
         else:
             ob.inst(wrap, ctor[0], "timeout plumbing")
